@@ -10,6 +10,10 @@ pub struct LocalConstantPropagator {
     binders: crate::passes::binders::BinderCounts,
     folder: ConstantFolder,
     stats: OptimizationStats,
+    // session unit: inside the bodies of functions and lambdas (`deferred` > 0) a top-level
+    // constant is not substituted - a later unit may rebind it before the body runs
+    top_level_open: bool,
+    deferred: usize,
 }
 
 impl LocalConstantPropagator {
@@ -19,6 +23,8 @@ impl LocalConstantPropagator {
             binders: Default::default(),
             folder: ConstantFolder::new(),
             stats: OptimizationStats::new(),
+            top_level_open: false,
+            deferred: 0,
         }
     }
 
@@ -280,16 +286,23 @@ impl LocalConstantPropagator {
         for param in &func.params {
             self.scopes.shadow(param.name.clone());
         }
+        self.deferred += 1;
         for stmt in func.body.iter_mut() {
             self.propagate_stmt(stmt);
         }
+        self.deferred -= 1;
         self.scopes.pop();
     }
 
     fn propagate_expr(&mut self, expr: &mut TypedExpr) {
         match &mut expr.kind {
             TypedExprKind::Identifier(name) => {
-                if let Some(const_val) = self.scopes.get(name) {
+                let known = if self.top_level_open && self.deferred > 0 {
+                    self.scopes.get_above_top_level(name)
+                } else {
+                    self.scopes.get(name)
+                };
+                if let Some(const_val) = known {
                     let ty = if expr.ty.is_integer() && const_val.ty.is_integer() {
                         expr.ty.clone()
                     } else {
@@ -349,9 +362,11 @@ impl LocalConstantPropagator {
                 for param in params.iter() {
                     self.scopes.shadow(param.name.clone());
                 }
+                self.deferred += 1;
                 for stmt in body.iter_mut() {
                     self.propagate_stmt(stmt);
                 }
+                self.deferred -= 1;
                 self.scopes.pop();
             }
 
@@ -445,5 +460,9 @@ impl OptimizationPass for LocalConstantPropagator {
         }
 
         self.stats.clone()
+    }
+
+    fn set_top_level_open(&mut self, open: bool) {
+        self.top_level_open = open;
     }
 }
